@@ -46,7 +46,9 @@ const (
 var (
 	passthroughs  = []string{`^/static/`, `\.png$`}
 	alwaysForward = []string{`^/always/`, `^/rpc$`}
-	paths         = []string{"/", "/items", "/items/7", "/static/app.js", "/img/logo.png", "/always/x", "/rpc", "/litefs/health", "/static/../rpc", "/always", "/rpcx"}
+	paths         = []string{"/", "/items", "/items/7", "/static/app.js", "/img/logo.png", "/always/x", "/rpc", "/litefs/health", "/static/../rpc", "/always", "/rpcx",
+		// the patterns apply to the path, never to the query string
+		"/upload?name=avatar.png", "/items?next=/static/x", "/q?x=/rpc", "/img/logo.png?v=2"}
 	methods       = []string{"GET", "GET", "GET", "HEAD", "POST", "POST", "PUT", "DELETE", "PATCH", "OPTIONS"}
 	malformed     = []string{"", "zz", "12", "-1", "00000000000000001", "0x0000000000000001", "0000000000000000", "000000000000000g"}
 )
@@ -338,14 +340,18 @@ func runPlan(c *pbt.Case, p Plan) {
 				c.Labelf("cookie:%s", map[bool]string{true: "none", false: "unusable"}[st.Cookie == CNone])
 			}
 			isRead := st.Method == "GET" || st.Method == "HEAD"
-			passthrough := matches(passthroughs, st.Path)
+			purePath := st.Path
+			if q := strings.IndexByte(purePath, '?'); q >= 0 {
+				purePath = purePath[:q]
+			}
+			passthrough := matches(passthroughs, purePath)
 			class := "write"
 			switch {
 			case passthrough:
 				class = "passthrough"
-			case st.Method == "GET" && st.Path == "/litefs/health":
+			case st.Method == "GET" && purePath == "/litefs/health":
 				class = "health"
-			case isRead && !matches(alwaysForward, st.Path):
+			case isRead && !matches(alwaysForward, purePath):
 				class = "read"
 			}
 			c.Labelf("class:%s:%s", class, map[bool]string{true: "replica", false: "primary"}[st.Replica])
